@@ -62,6 +62,14 @@ class P(Prop):
             es, sg = G.segs(rng, ty, k)
             sg[0][-1] = C.bits(2.0 ** -1000)
             out.append(dict(op=rng.choice(["pw_mul", "pw_neg", "pw_mul_assign"]), ty=ty, segs=sg, s=C.bits(2.0 ** -60), meta={"class": "scale/subnormal_product"}))
+        # scalars that are not ordered numbers: NaN (several payloads), +-inf - every route must still apply the operation to every piece
+        for _ in range(16 if tier == "quick" else 200):
+            op = rng.choice(["pw_mul", "pw_mul_assign", "pw_mul_assign", "pw_translate"])
+            ty = rng.choice(MULASSIGN_TYPES) if op == "pw_mul_assign" else rng.choice(G.ALL_TYPES)
+            k = rng.randint(1, 5)
+            es, sg = G.segs(rng, ty, k)
+            sb = rng.choice([C.NAN_BITS, C.NAN_BITS, 0xFFF8000000000000, 0x7FF0000000000001, C.bits(float("inf")), C.bits(float("-inf"))])
+            out.append(dict(op=op, ty=ty, segs=sg, s=sb, meta={"class": op + "/unordered_scalar"}))
         for k in (17, 33, 64, 65, 100):
             for op in ("pw_mul", "pw_mul_assign", "pw_neg", "pw_translate"):
                 ty = "Poly2"
